@@ -142,6 +142,9 @@ def pbox_pairs(chk, tier):
     ops += [("num", k) for k in ("add", "rsub", "mul", "rdiv", "div")] + [("unary", k) for k in ("exp", "log", "sqrt", "neg", "recip")]
     ops += [("env", None), ("imp", None), ("stack", None), ("nested", None)]
     ops += [("env", "near"), ("imp", "near")]      # second operand within 3e-6 (relative) of the WIDER first operand, but not equal to it
+    # a thin X and a copy Y shifted by more than X's width but less than its range: the supports overlap, the bounds cross at EVERY level (no meet
+    # with X), while the wider X' does meet Y
+    ops += [("imp", "shifted"), ("env", "shifted")]
     reps = 1 if tier == "quick" else 12
     # every run: each arithmetic operation under each dependency on each pairing of definite / straddling signs
     # (the sign routing of products and quotients has one branch per pairing)
@@ -168,6 +171,14 @@ def pbox_pairs(chk, tier):
             if kind == "num" and arg == "rdiv":
                 X = pbx.gen_bounds(rng, 200, rng.choice(["pos", "neg"]), dy=False)
             X2 = widen_pbox(rng, *X)
+            if arg == "shifted":
+                t0, rg, w = pbx.dyadic(rng, -3, 3), rng.choice([4.0, 10.0]), rng.choice([0.0625, 0.125, 0.5])
+                sh = w + rng.choice([0.25, 1.0, 1.5])
+                t = [t0 + rg * k / 199 for k in range(200)]
+                X = (list(t), [v + w for v in t])
+                Y = ([v + sh for v in t], [v + sh + w for v in t])
+                m_ = rng.choice([0.5, 1.0, 2.0])
+                X2 = (list(t), [v + sh + w * m_ for v in t])
             if arg == "near":
                 eps = [3e-6 * abs(v) + 3e-9 for v in X2[0]]
                 if kind == "env":       # slightly wider than X2 on both sides
